@@ -588,3 +588,18 @@ package badger
 //@   assigns held(s.RWMutex)
 //@   loop 1 invariant[range] 1 <= j && numTables == len(s.tables)
 //@   loop 1 invariant[so-far] forall k int {s.tables[k].smallest} :: 1 <= k && k < j ==> keycmp(s.tables[k-1].biggest, s.tables[k].smallest) < 0 && keycmp(s.tables[k].smallest, s.tables[k].biggest) <= 0
+
+// ---- compaction prologue (C12, C13, C15) ----
+
+// The discard timestamp comes from the oracle (read watermark, or the caller's discard
+// timestamp in managed mode) and is lowered to the value-log GC's start while a rewrite is in
+// flight (C15). Tombstones may be dropped only when no table outside this compaction can hold
+// an older version: for an L0 to L0 compaction the L0 tables left out can (C12).
+//@ func (*levelsController).subcompact
+//@   props C12 C13 C15
+//@   light
+//@   assert[discard-ts-from-oracle] before call discardAtOrBelow : arg0 == s.kv.orc
+//@   assert[overlap-below-output] before call checkOverlap : arg2 == cd.nextLevel.level + 1
+//@   assert[gc-clamp] before closure addKeys : s.kv.gcActive.v != 0 && s.kv.gcDiscardTs.v > 0 ==> discardTs <= s.kv.gcDiscardTs.v
+//@   assert[discard-ts-not-raised] before closure addKeys : discardTs <= ret(discardAtOrBelow#1)
+//@   assert[l0-to-l0-keeps-tombstones] before closure addKeys : cd.thisLevel.level == 0 && cd.nextLevel.level == 0 ==> hasOverlap
